@@ -15,7 +15,7 @@ func isErrOp(op string) bool {
 
 func isPropOp(op string) bool {
 	switch op {
-	case "setProp", "copyCell", "addCopy", "takeHandle":
+	case "setProp", "copyCell", "addCopy", "takeHandle", "nestCell", "updateCell":
 		return true
 	}
 	return false
@@ -176,7 +176,17 @@ func (engC11) Gen(r *Rng, s *Script, idx int, tier string) {
 				s.Steps = append(s.Steps, st)
 			}
 		case 2:
-			s.Steps = append(s.Steps, genRegister(r, true, false))
+			reg := genRegister(r, true, false)
+			if r.Chance(1, 3) {
+				reg.E |= 2 // all failures return one shared error value
+				if len(reg.Plan) == 0 {
+					reg.Plan = []int{0, 1, 2}
+				}
+			}
+			s.Steps = append(s.Steps, reg)
+			if r.Chance(1, 3) {
+				s.Steps = append(s.Steps, reg) // a second registration in the very same list
+			}
 		default:
 			if r.Chance(1, 2) {
 				s.Steps = append(s.Steps, Step{Op: "invokeRC"})
@@ -285,9 +295,14 @@ func (engC12) Gen(r *Rng, s *Script, idx int, tier string) {
 			}
 			s.Steps = append(s.Steps, Step{Op: "setProp", A: a, C: r.Intn(nkeys), D: r.Pick([]int{1, 2})})
 		case 2:
-			if r.Chance(1, 4) {
+			switch r.Intn(8) {
+			case 0, 1:
 				s.Steps = append(s.Steps, Step{Op: "addCopy", A: r.Intn(3), B: r.Intn(3)})
-			} else {
+			case 2:
+				s.Steps = append(s.Steps, Step{Op: "nestCell", A: r.Intn(4), B: r.Intn(3)})
+			case 3:
+				s.Steps = append(s.Steps, Step{Op: "updateCell", A: r.Intn(4)})
+			default:
 				s.Steps = append(s.Steps, Step{Op: "copyCell", A: r.Intn(6), B: r.Intn(3)})
 			}
 		case 3:
@@ -432,7 +447,22 @@ func (engC13) Gen(r *Rng, s *Script, idx int, tier string) {
 	for k := 0; k < nreg; k++ {
 		regAt[r.Intn(n)] = true
 	}
+	byValue := r.Chance(1, 6) // cell-owned callbacks travelling with by-value copies of a cell
+	s.Config["by_value_cells"] = map[bool]int{false: 0, true: 1}[byValue]
 	for i := 0; i < n; i++ {
+		if byValue && i > 1 && r.Chance(1, 3) {
+			switch r.Intn(4) {
+			case 0:
+				s.Steps = append(s.Steps, Step{Op: "copyCell", A: r.Intn(3), B: r.Intn(3)})
+			case 1:
+				s.Steps = append(s.Steps, Step{Op: "register", A: ownCellValue, B: r.Intn(2), C: 2, D: r.Intn(2), E: 1})
+			case 2:
+				s.Steps = append(s.Steps, Step{Op: "addCopy", A: r.Intn(2), B: r.Intn(3)})
+			default:
+				s.Steps = append(s.Steps, Step{Op: "register", A: ownCell, B: r.Intn(3), C: 2, D: r.Intn(2), E: 1})
+			}
+			continue
+		}
 		if regAt[i] {
 			s.Steps = append(s.Steps, genRegister(r, failing, true))
 			if same && len(s.Steps) > 0 {
